@@ -78,11 +78,15 @@ def Side.new (machines : List Machine) (t0 : Int) (fp fb : F64) (orc : σ) : Exc
            schedTimer := machines.map (fun _ => none), blockingUntil := none, blockingBypassable := false },
          fw.rng)
 
+/-- `sq.get_first_time().unwrap()` -/
+def firstTimeE (sq : SimQueue) : Except SimFault Int :=
+  match sq.firstTime with
+  | some t => .ok t
+  | none => .error .emptyQueue
+
 /-- the state at the top of the main loop -/
 def initState (mc ms : List Machine) (sq : SimQueue) (args : Args) (orc : σ) : Except SimFault (St σ) := do
-  let t0 ← match sq.firstTime with
-    | some t => pure t
-    | none => .error .emptyQueue
+  let t0 ← firstTimeE sq
   let (c, orc) ← Side.new ρ mc t0 args.fpClient args.fbClient orc
   let (s, orc) ← Side.new ρ ms t0 args.fpServer args.fbServer orc
   let net ← Bottleneck.new args.network 1000000000 sq.maxPps
